@@ -92,7 +92,7 @@ func (o *C10) Check(x *h.Exec, ev *h.Event) {
 					k := fname + "|" + mo.Key()
 					if count[k] != 1 {
 						// a required origin inside a May span of an enclosing construct is open
-						if inSpans(m.May, mo.Start, mo.End) {
+						if inSpansStrict(m.May, mo.Start, mo.End) {
 							continue
 						}
 						x.Report("origin-missing-or-duplicated", "origins", mo.Kind, fmt.Sprintf("%s: the reference %q written at bytes %d..%d must yield exactly one origin, found %d (map order %s)", fname, mo.Addr, mo.Start, mo.End, count[k], ord.P), &q)
@@ -145,6 +145,16 @@ func sortedModelNames(m map[string]*model.OriginModel) []string {
 func inSpans(sp []world.Span, s, e int) bool {
 	for _, x := range sp {
 		if s >= x.Start && e <= x.End {
+			return true
+		}
+	}
+	return false
+}
+
+// inSpansStrict: inside a span that is larger than [s,e) itself.
+func inSpansStrict(sp []world.Span, s, e int) bool {
+	for _, x := range sp {
+		if s >= x.Start && e <= x.End && x.End-x.Start > e-s {
 			return true
 		}
 	}
